@@ -148,7 +148,7 @@ def _pack_seeds():
 # ---------------------------------------------------------------------------
 # readers
 
-CHECKSUMMED = {"idx v2", "idx v1", "pack(idx v2 damaged)", "index v2", "index v3", "index v4", "commit-graph", "multi-pack-index"}
+CHECKSUMMED = {"idx v2", "idx v1", "pack(idx v2 damaged)", "store(idx v2 damaged)", "index v2", "index v3", "index v4", "commit-graph", "multi-pack-index"}
 
 
 def _reader_target(rname):
@@ -182,7 +182,7 @@ def _reader_seeds(rname):
     return seeds
 
 
-READERS = ["idx v1", "idx v2", "pack(idx v2 damaged)", "index v2", "index v3", "index v4", "commit-graph", "multi-pack-index",
+READERS = ["idx v1", "idx v2", "pack(idx v2 damaged)", "store(idx v2 damaged)", "index v2", "index v3", "index v4", "commit-graph", "multi-pack-index",
            "packed-refs(peeled)", "loose commit", "loose tree"]
 
 TARGETS = {"pack_struct": dict(fn=pack_struct, seeds=_pack_seeds, max_len=6000,
